@@ -40,6 +40,9 @@ type swEv struct {
 	Keys   []int  `json:"keys,omitempty"`  // indices into Keys
 	Peers  []int  `json:"peers,omitempty"` // pool indices (grow) or indices into the current swarm (shrink, unreach)
 	DurMin int    `json:"dur_min,omitempty"`
+	// start: the node's address changes right after the first ADD_PROVIDER of the drain this call sets off has gone out (single
+	// worker configurations only: regions are then worked off one after the other)
+	MidAddr bool `json:"mid_addr,omitempty"`
 }
 
 type swSc struct {
@@ -75,6 +78,7 @@ type swarmState struct {
 	unreach map[int]bool
 	outage  bool
 	addrs   []ma.Multiaddr
+	armMid  string // non-empty: the next ADD_PROVIDER that is logged switches the node's address to this one (an address change in the middle of a drain)
 }
 
 func (st *swarmState) list() []int {
@@ -92,9 +96,16 @@ type swRouter struct {
 	st     *swarmState
 	bucket int
 	cost   time.Duration
+	start  time.Time
+	self   string
+	lmu    sync.Mutex
+	log    []lookupRec
 }
 
 func (r *swRouter) GetClosestPeers(ctx context.Context, k string) ([]peer.ID, error) {
+	r.lmu.Lock()
+	r.log = append(r.log, lookupRec{At: time.Since(r.start), Self: k == r.self})
+	r.lmu.Unlock()
 	r.st.mu.Lock()
 	out := r.st.outage
 	r.st.mu.Unlock()
@@ -139,6 +150,18 @@ type swSender struct {
 	mu    sync.Mutex
 	log   []advert
 	idx   map[peer.ID]int
+	mids  []midChange
+}
+
+// midChange is an address change that took effect right after a send was logged.
+type midChange struct {
+	At   time.Duration
+	Addr string
+}
+
+type lookupRec struct {
+	At   time.Duration // start of the lookup
+	Self bool          // the connectivity checker's probe (target: the node's own id)
 }
 
 func (s *swSender) SendRequest(ctx context.Context, p peer.ID, m *pb.Message) (*pb.Message, error) {
@@ -179,6 +202,15 @@ func (s *swSender) SendMessage(ctx context.Context, p peer.ID, m *pb.Message) er
 	s.mu.Lock()
 	s.log = append(s.log, advert{At: time.Since(s.start), Key: ki, To: p, Addrs: strings.Join(addrs, ",")})
 	s.mu.Unlock()
+	s.st.mu.Lock()
+	if s.st.armMid != "" {
+		s.st.addrs = []ma.Multiaddr{ma.StringCast(s.st.armMid)}
+		s.mu.Lock()
+		s.mids = append(s.mids, midChange{At: time.Since(s.start), Addr: s.st.armMid})
+		s.mu.Unlock()
+		s.st.armMid = ""
+	}
+	s.st.mu.Unlock()
 	return nil
 }
 
@@ -204,12 +236,15 @@ type swObs struct {
 	Restarts  []int
 	SchedAt   map[int][]string // minute -> scheduled prefixes at the end of that minute (recorded when they change)
 	AddrAt    map[int]string
+	Mids      []midChange       // address changes in the middle of a drain
+	MidNew    map[int]string    // minute -> the address such a change brought in that minute
+	Lookups   []lookupRec
 	Errs      []string
 	Outcome   verifsim.BubbleOutcome
 }
 
 func runSweep(t *testing.T, sc *swSc) swObs {
-	obs := swObs{SwarmAt: map[int][]int{}, UnreachAt: map[int][]int{}, StartAt: map[int]int{}, StopAt: map[int]int{}, OnceAt: map[int][]int{}, AddrAt: map[int]string{}}
+	obs := swObs{SwarmAt: map[int][]int{}, UnreachAt: map[int][]int{}, StartAt: map[int]int{}, StopAt: map[int]int{}, OnceAt: map[int][]int{}, AddrAt: map[int]string{}, MidNew: map[int]string{}}
 	pp, kp := swpp(), swkp()
 	obs.Outcome = verifsim.Bubble(t, func() {
 		st := &swarmState{members: map[int]bool{}, unreach: map[int]bool{}, addrs: []ma.Multiaddr{ma.StringCast("/ip4/8.1.1.1/tcp/4001")}}
@@ -225,9 +260,9 @@ func runSweep(t *testing.T, sc *swSc) swObs {
 			mhs[i] = mh.Multihash(kp.IDs[k])
 			sender.keyOf[kp.IDs[k]] = i
 		}
-		router := &swRouter{st: st, bucket: sc.Bucket, cost: time.Duration(sc.LookupMs) * time.Millisecond}
-		dstore := dssync.MutexWrap(ds.NewMapDatastore())
 		self := peer.ID(pp.IDs[swPool-1])
+		router := &swRouter{st: st, bucket: sc.Bucket, cost: time.Duration(sc.LookupMs) * time.Millisecond, start: sender.start, self: string(self)}
+		dstore := dssync.MutexWrap(ds.NewMapDatastore())
 		ksDs := dssync.MutexWrap(ds.NewMapDatastore())
 		var ks keystore.Keystore
 		open := func() (*SweepingProvider, error) {
@@ -292,6 +327,11 @@ func runSweep(t *testing.T, sc *swSc) swObs {
 			for _, e := range byMin[m] {
 				switch e.Ev {
 				case "start":
+					if e.MidAddr {
+						st.mu.Lock()
+						st.armMid = fmt.Sprintf("/ip4/8.1.3.%d/tcp/4001", 2+m%200)
+						st.mu.Unlock()
+					}
 					if err := prov.StartProviding(e.Force, keysOf(e)...); err != nil {
 						obs.Errs = append(obs.Errs, fmt.Sprintf("minute %d StartProviding: %v", m, err))
 					}
@@ -413,6 +453,16 @@ func runSweep(t *testing.T, sc *swSc) swObs {
 			}
 			time.Sleep(43 * time.Second)
 			verifsim.Quiesce()
+			st.mu.Lock()
+			st.armMid = "" // (nothing was sent in this minute: no change)
+			st.mu.Unlock()
+			sender.mu.Lock()
+			for _, mc := range sender.mids[len(obs.Mids):] {
+				obs.Mids = append(obs.Mids, mc)
+				obs.MidNew[m] = mc.Addr
+				obs.AddrAt[m+1] = mc.Addr
+			}
+			sender.mu.Unlock()
 			// the schedule's prefixes at the end of the minute (in-package read, under the schedule lock): lets the oracle tell a
 			// re-planned schedule (prefix length re-estimated after a restart or an offline period) from a missed slot
 			prov.scheduleLk.Lock()
@@ -430,6 +480,9 @@ func runSweep(t *testing.T, sc *swSc) swObs {
 		sender.mu.Lock()
 		obs.Log = append([]advert(nil), sender.log...)
 		sender.mu.Unlock()
+		router.lmu.Lock()
+		obs.Lookups = append([]lookupRec(nil), router.log...)
+		router.lmu.Unlock()
 	})
 	return obs
 }
@@ -529,6 +582,49 @@ func judgeSweep(sc *swSc, obs *swObs, res *verifsim.Result) (cycles int) {
 			}
 		}
 		return false
+	}
+	// an address change in the middle of a drain (single worker: regions are worked off one after the other, each one planned -
+	// closest-peers lookups - before anything of it is sent): once a lookup has started after the change, a new region is being
+	// worked on, and what is sent for it - within that minute, before the next event - carries the address the node has then
+	for _, mc := range obs.Mids {
+		if inOutage(mc.At-2*time.Minute, mc.At+2*time.Minute) {
+			continue
+		}
+		near := false
+		for _, r := range obs.Restarts {
+			if d := mc.At - time.Duration(r)*time.Minute; d > -2*time.Minute && d < 2*time.Minute {
+				near = true
+			}
+		}
+		if near {
+			continue
+		}
+		var planned time.Duration = -1
+		for _, l := range obs.Lookups {
+			if !l.Self && l.At > mc.At && (planned < 0 || l.At < planned) {
+				planned = l.At
+			}
+		}
+		if planned < 0 {
+			continue
+		}
+		end := mc.At.Truncate(time.Minute) + time.Minute + 17*time.Second
+		if mc.At-mc.At.Truncate(time.Minute) < 17*time.Second {
+			end -= time.Minute
+		}
+		later := 0
+		for _, a := range obs.Log {
+			if a.At > planned && a.At < end {
+				later++
+				if a.Addrs != mc.Addr {
+					res.Fail("current-addresses", "C17/sweep/stale-address-later-region", "the node's address changed to %q at %v, in the middle of a drain; a region planned afterwards (first lookup at %v) was advertised with %q at %v (key %d)", mc.Addr, mc.At, planned, a.Addrs, a.At, a.Key)
+					return
+				}
+			}
+		}
+		if later > 0 {
+			res.Class("address-change-in-the-middle-of-a-drain")
+		}
 	}
 	// deadlineAfter: a key last advertised at `last` is due by last+bound; when a router outage begins before that deadline the
 	// missed work must be caught up once the node is back online: the deadline moves to the outage's end plus a catch-up allowance
@@ -796,7 +892,7 @@ func judgeSweep(sc *swSc, obs *swObs, res *verifsim.Result) (cycles int) {
 						res.Fail("advertised-to-nearest", sig, "%s at minute %d: %s", what, m, why)
 						return false
 					}
-					if want := addrAt(obs, m); a.addr != want {
+					if want := addrAt(obs, m); a.addr != want && (obs.MidNew[m] == "" || a.addr != obs.MidNew[m]) {
 						res.Fail("current-addresses", "C17/sweep/"+what+"/stale-address", "%s at minute %d advertised %q, current address is %q", what, m, a.addr, want)
 						return false
 					}
@@ -1066,6 +1162,9 @@ func genSweep(t *rapid.T, regime string) swSc {
 		}
 	}
 	sc.Events = append(sc.Events, swEv{AtMin: rapid.IntRange(0, 3).Draw(t, "startAt"), Ev: "start", Force: true, Keys: first})
+	if sc.Workers == [3]int{1, 0, 0} && len(first) >= 6 && sc.Events[0].AtMin >= 1 && verifsim.Chance(t, "midAddr", 50) {
+		sc.Events[0].MidAddr = true
+	}
 	// one event per minute at most: two events in one minute would share a virtual instant
 	ats := rapid.SliceOfNDistinct(rapid.IntRange(4, sc.TotalMin-2), 0, 5, func(i int) int { return i }).Draw(t, "eventMinutes")
 	lateDone := false
